@@ -10,7 +10,7 @@ from .. import symtrace as st, common
 from ..gen_lean import Def
 from ..runner import Corr, Failure
 
-LEAN_MODULES = ['SvgVerif.Props.C04', 'SvgVerif.Props.C04Param', 'SvgVerif.Props.C04RoundTrip']
+LEAN_MODULES = ['SvgVerif.Props.C04', 'SvgVerif.Props.C04Param', 'SvgVerif.Props.C04RoundTrip', 'SvgVerif.Props.C04Approx']
 ARGS = ['theta', 'delta', 'rx', 'ry', 'cphi', 'sphi', 'rot', 'cx', 'cy', 'pi', 't']
 
 
@@ -142,7 +142,47 @@ def correspond(ctx):
         impl.append(' '.join(qstr(Q(Fr(float(v))) if isinstance(v, float) else v) for v in out))
         c.count('%s/%s%s' % (cls, 'L' if large else 's', 'S' if sweep else 'n'))
     c.compare(lines, [m.strip() for m in common.driver(lines)], impl)
-    return [c]
+    return [c, _correspond_approx(ctx)]
+
+
+def _correspond_approx(ctx):
+    """the REAL Arc.as_cubic_curves / Arc.as_quad_curves on exact rationals (exactnum.Q / QC) against Model.ArcApprox;
+    radians/cos/sin/tan/sqrt are replaced from outside by exact stand-ins (the Lean driver has the same ones)"""
+    from ..exactnum import Q, QC, qstr, sqrt_standin
+    from .c08 import _standins
+    P = ctx.spt.path
+    r = ctx.rng('corr/approx')
+    c = Corr('Arc.as_cubic_curves / as_quad_curves')
+    F = _standins()
+    lines, impl = [], []
+    rq = lambda lo=-6, hi=6, ds=(1, 1, 2, 4): Fr(r.randint(lo, hi), r.choice(ds))
+    saved = (P.cos, P.sin, P.tan, P.sqrt, P.radians)
+    try:
+        P.cos, P.sin, P.tan, P.sqrt = F['cos'], F['sin'], F['tan'], sqrt_standin
+        P.radians = lambda x: x * Fr(22, 7) / 180
+        for it in range(ctx.n(200, 3000)):
+            kind = r.choice(['cubic', 'quad'])
+            n = r.choice([1, 1, 2, 3, 4, 7])
+            arc = P.Arc.__new__(P.Arc)
+            arc.start, arc.end = QC(rq(), rq()), QC(rq(), rq())
+            arc.center = QC(rq(), rq())
+            arc.radius = QC(Fr(r.randint(1, 6), r.choice([1, 2])), Fr(r.randint(1, 6), r.choice([1, 2])))
+            arc.rotation = Q(Fr(r.choice([0, 30, 45, -60, 90, 180, 200])))
+            arc.theta = Q(Fr(r.randint(-180, 180)))
+            arc.delta = Q(Fr(r.choice([-360, -270, -90, -10, 10, 45, 90, 180, 359])))
+            args = [arc.start.real, arc.start.imag, arc.end.real, arc.end.imag, arc.center.real, arc.center.imag,
+                    arc.radius.real, arc.radius.imag, arc.rotation, arc.theta, arc.delta]
+            lines.append('arcapx %s %d %s' % (kind, n, ' '.join(qstr(x) for x in args)))
+            try:
+                segs = list(arc.as_cubic_curves(n) if kind == 'cubic' else arc.as_quad_curves(n))
+                impl.append(' ; '.join(' '.join('%s %s' % (qstr(p.real), qstr(p.imag)) for p in sg.bpoints()) for sg in segs))
+            except Exception as e:
+                impl.append('raise ' + type(e).__name__)
+            c.count('%s/curves=%d' % (kind, n))
+    finally:
+        P.cos, P.sin, P.tan, P.sqrt, P.radians = saved
+    c.compare(lines, [m.strip() for m in common.driver(lines)], [m.strip() for m in impl])
+    return c
 
 
 def ref_arc(start, radius, rotation, large, sweep, end):
